@@ -4,7 +4,8 @@ PROPS["C07"] = dict(
     rule="case = script over {start waiter with current/stale/unknown version or pre-cancelled context, cancel waiter i, Put, PutMany (1-2 keys), "
          "CasByVersion ok/conflict, Delete, Create, advance clock} with up to 4 live waiters on 2 keys, <= 25(40) steps in-memory, <= 10 steps "
          "on Redis (batches of up to 8 scripts run concurrently, each on its own server). The hammer unit starts a waiter for the current version and writes the key (Put or CAS) at the same moment, "
-         "300..2000(6000) times on 1..6 keys in parallel: after the write returned the waiter must return nil within 5 s. After every step every waiter must have returned iff "
+         "300..2000(6000) times on 1..6 keys in parallel: after the write returned the waiter must return nil within 5 s. The squeeze unit forces a writer (Put/CAS/PutMany/Delete) between the critical sections of a starting waiter through the "
+         "storage mutex. After every step every waiter must have returned iff "
          "key absent/expired (ErrNotExist) or version != argument (nil) or context done (context error), and must still be parked otherwise; "
          "the in-memory waiter table must hold exactly the parked waiters and be empty at the end. non-trivial = a waiter was cancelled "
          "while another one on the same key stayed parked, or one mutation woke >= 2 waiters; distinct = hash of (environment, script); "
@@ -14,6 +15,7 @@ PROPS["C07"] = dict(
                  "script is re-run once before a missing wake-up is reported", "waiter table read through the overlay accessor VerifWaiterTable"],
     units=[
         dict(name="inmem", run="^TestC07InmemRapid$", checks=(20000, 60000), shards=(2, 16), timeout=(300, 1500)),
+        dict(name="squeeze", run="^TestC07Squeeze$", shards=1, timeout=(300, 900)),
         dict(name="hammer", run="^TestC07Hammer$", checks=(40, 300), shards=(2, 8), timeout=(300, 1500), shrinktime="15s", race=(False, True)),
         dict(name="redis", run="^TestC07RedisRapid$", checks=(8, 60), shards=(4, 16), timeout=(300, 1500)),
     ],
